@@ -33,16 +33,17 @@ func c09World(t *testing.T, p c09Params) rt.Result {
 	r := rt.Get().Rand("c09w", int(p.Seed))
 	out := hz.Run(t, hz.Opts{Seed: p.Seed, HookMode: p.Hook}, func(w *hz.World) {
 		ps := hz.StdPeer("10.0.1.1")
-		ps.Hold = 90
 		ps.Cfg.ProbeWriteInClose = true
+		v := pickVariety(r, p.Dir)
+		v.apply(&ps, p.Seed)
 		if p.Dir == "in" && !p.Active {
 			ps.Passive = true
 		}
 		var s *sess
 		if p.Reuse && p.Dir == "out" {
-			s = bringReused(w, ps, p.State, 90)
+			s = bringReused(w, ps, p.State, v.RemoteHold)
 		} else {
-			s = bring(w, ps, p.Dir, p.State, 90)
+			s = bring(w, ps, p.Dir, p.State, v.RemoteHold)
 		}
 		if s == nil {
 			return
